@@ -1049,7 +1049,66 @@ class Lowering:
         ks = [k for k in kids(n) if k.get('kind')]
         ctx = Ctx(fs)
         c = self.expr(ks[0], ctx)
+        keep = self.cfg.get('keep_cases', {}).get(fs.cname)
+        if keep is not None and ks[1].get('kind') == 'CompoundStmt':
+            return ctx.pre + ['switch (%s)' % c] + self.sliced_switch_body(ks[1], fs, set(keep))
         return ctx.pre + ['switch (%s)' % c] + self.block(ks[1], fs)
+
+    def case_labels(self, n):
+        """names of the enumerators labelling a (possibly nested `case A: case B:`) CaseStmt; the innermost non-case statement"""
+        labels = []
+        while n.get('kind') in ('CaseStmt', 'DefaultStmt'):
+            ks = kids(n)
+            if n['kind'] == 'DefaultStmt':
+                labels.append('default')
+                n = ks[0]
+                continue
+            def find(e):
+                if e.get('kind') == 'DeclRefExpr':
+                    return e['referencedDecl'].get('name')
+                for k in kids(e):
+                    r = find(k)
+                    if r:
+                        return r
+                return None
+            nm = find(ks[0])
+            if nm is None:
+                raise Unsupported('keep_cases: case label is not an enumerator at %s' % self.tu.where(n))
+            labels.append(nm)
+            n = ks[-1]
+        return labels
+
+    def sliced_switch_body(self, body, fs, keep):
+        """cfg keep_cases: lower only the listed cases of the (single, top-level) switch of this function.  A case and
+        the statements up to the next case label are one group; a group is kept iff one of its labels is listed.  Every
+        dropped group is replaced by one `default:` that calls verif_dropped_case() (a proof failure if reached), and
+        is named in the report.  Aborts unless every listed label is found, and if a kept group can fall out of
+        its end into a dropped one (no jump as its last statement)."""
+        groups = []          # [labels, [stmts]]
+        for c in kids(body):
+            if c.get('kind') in ('CaseStmt', 'DefaultStmt'):
+                groups.append([self.case_labels(c), [c]])
+            elif groups:
+                groups[-1][1].append(c)
+            else:
+                raise Unsupported('keep_cases: statement before the first case label')
+        found = set()
+        out = ['{']
+        dropped = []
+        for labels, stmts in groups:
+            if keep & set(labels):
+                found |= keep & set(labels)
+                for st in stmts:
+                    out += self.indent(self.stmt(st, fs), 1)
+                out += self.indent(['verif_dropped_case(); /* end of a kept case group: falling out of it is not lowered */'], 1)
+            else:
+                dropped += labels
+        if keep - found:
+            raise Unsupported('keep_cases: case label(s) %s not found in %s' % (sorted(keep - found), fs.cname))
+        out += self.indent(['default: verif_dropped_case(); /* cases dropped by the extraction: %s */' % ' '.join(dropped)], 1)
+        out.append('}')
+        self.report.setdefault('dropped_cases', []).append({'function': fs.cname, 'kept': sorted(found), 'dropped': dropped})
+        return out
 
     def s_CaseStmt(self, n, fs):
         ks = kids(n)
@@ -1553,6 +1612,17 @@ class Lowering:
 
     def e_CXXBindTemporaryExpr(self, n, ctx):
         return self.expr(kids(n)[0], ctx)
+
+    def e_CXXStdInitializerListExpr(self, n, ctx):
+        """std::initializer_list<T>{e1..en} whose type is mapped to a C record {T d[K]; unsigned long n;}"""
+        ct = self.ctype(ty(n))
+        a = kids(n)[0]
+        while a.get('kind') in ('MaterializeTemporaryExpr', 'ImplicitCastExpr', 'ExprWithCleanups'):
+            a = kids(a)[0]
+        if a.get('kind') != 'InitListExpr':
+            raise Unsupported('initializer_list not built from a braced list at %s' % self.tu.where(n))
+        vals = [self.expr(k, ctx) for k in kids(a)]
+        return '((%s){{%s}, %d})' % (ct, ', '.join(vals) if vals else '0', len(vals))
 
     def e_InitListExpr(self, n, ctx):
         t = ty(n)
